@@ -14,4 +14,14 @@ if ! cargo build --offline >"$VERIF/scratch/build.log" 2>&1; then
   echo "HARNESS-ERROR: shadow build failed (see scratch/build.log)"
   exit 2
 fi
+# System-call fault seam (LD_PRELOAD interposer used by the process-level families).
+if [ ! -e "$VERIF/target/libsimsys.so" ] || [ "$VERIF/sim/simsys/simsys.c" -nt "$VERIF/target/libsimsys.so" ]; then
+  if ! gcc -O2 -fPIC -shared -Wall -fno-delete-null-pointer-checks -o "$VERIF/target/libsimsys.so.tmp" \
+       "$VERIF/sim/simsys/simsys.c" -ldl >>"$VERIF/scratch/build.log" 2>&1; then
+    tail -20 "$VERIF/scratch/build.log"
+    echo "HARNESS-ERROR: building libsimsys.so failed"
+    exit 2
+  fi
+  mv "$VERIF/target/libsimsys.so.tmp" "$VERIF/target/libsimsys.so"
+fi
 exit 0
